@@ -93,6 +93,8 @@ def _arrays(tier, seed):
     for pc in range(12):  # a single note of every pitch class (the smallest input: its only context is itself), and two-note inputs
         out.append(("single_note_pitch_class_%d" % pc, [(24 + 12 * (pc % 5) + pc, 0, 1)]))
     out.append(("two_notes_a_tritone_apart", [(66, 0, 1), (60, 1, 1)]))
+    out.append(("four_part_chords_with_chromatic_notes", [(p, t, 1) for t, ch in enumerate(((48, 55, 64, 72), (47, 56, 62, 74), (45, 57, 61, 76), (50, 54, 63, 69), (43, 58, 62, 70), (44, 53, 60, 75), (49, 52, 61, 68), (48, 55, 64, 72)))
+                                                          for p in ch]))
     out.append(("extremes", [(21, 0, 1), (108, 0, 1), (22, 1, 0.5), (107, 1.5, 2)]))
     out.append(("top_of_the_keyboard", [(108, 0, 4), (103, 4, 1), (100, 5, 1), (108, 6, 2), (105, 8, 1), (108, 9, 4), (107, 13, 1), (108, 14, 4), (103, 18, 2)]))
     out.append(("above_the_keyboard", [(120, 0, 2), (124, 2, 1), (127, 3, 2), (120, 5, 3), (122, 8, 1), (127, 9, 2), (125, 11, 1), (120, 12, 4)]))
@@ -139,6 +141,11 @@ def bounded(b):
                 worst = max(abs(int(s["alter"])) for s in sp)
                 b.case("spelling/at_most_a_double_accidental", worst <= 2, case, "alteration %d: %r" % (worst, [(str(s["step"]), int(s["alter"]), int(s["octave"])) for s in sp if abs(int(s["alter"])) > 2][:3]), nontrivial=nontriv)
                 perms = list(itertools.permutations(range(len(rows)))) if len(rows) <= 4 else [rng.sample(range(len(rows)), len(rows)) for _ in range(6)]
+                if len(rows) > 4:
+                    # orders chosen on purpose (not left to chance): reversed; by onset with each chord listed from the top down; by pitch, descending
+                    idx = list(range(len(rows)))
+                    perms += [idx[::-1], sorted(idx, key=lambda i: (rows[i][1], -rows[i][0])), sorted(idx, key=lambda i: (-rows[i][0], rows[i][1])),
+                              sorted(idx, key=lambda i: (-rows[i][1], -rows[i][0]))]
                 indep, why = True, ""
                 for perm in perms:
                     sp2 = estimate_spelling(_na([rows[i] for i in perm], unit))
